@@ -222,5 +222,16 @@ class DictInterp:
                     self.block(st.body)
             elif isinstance(st, ast.Pass):
                 continue
+            elif isinstance(st, ast.Try) and not st.finalbody:
+                try:
+                    self.block(st.body)
+                except KeyErr:
+                    h = next((h for h in st.handlers if h.type is None or any(
+                        n in norm(h.type) for n in ('KeyError', 'LookupError', 'Exception'))), None)
+                    if h is None:
+                        raise
+                    self.block(h.body)
+                else:
+                    self.block(st.orelse)
             else:
                 self.fail(st)
